@@ -165,7 +165,12 @@ func (s ZStructStr) String() string { return s.V }
 
 type ZPtrStr struct{ V string } // Stringer on a pointer receiver
 
-func (s *ZPtrStr) String() string { return s.V }
+func (s *ZPtrStr) String() string {
+	if s == nil {
+		return "<nil ZPtrStr>" // supplied functions are total, also on nil receivers
+	}
+	return s.V
+}
 
 // ZTextInt: an int-kinded Stringer whose text comes from the context
 type ZTextInt struct {
